@@ -57,8 +57,19 @@ def _scale_timers():
     signal.setitimer, signal.alarm = setitimer, alarm
 
 
+def _limit_memory():
+    """A runaway generator or a pathological lark construction must fail loudly instead of exhausting the machine."""
+    import resource
+    lim = int(os.environ.get('VERIF_MEM_GB', '24')) * (1 << 30)
+    try:
+        resource.setrlimit(resource.RLIMIT_AS, (lim, lim))
+    except (ValueError, OSError):
+        pass
+
+
 def main():
     _scale_timers()
+    _limit_memory()
     ap = argparse.ArgumentParser()
     ap.add_argument('prop')
     ap.add_argument('--tier', default=os.environ.get('VERIF_TIER', 'quick'))
